@@ -37,8 +37,36 @@ func (c *Ctx) runArticle(idx int, prof Profile, opts *distiller.Options) (*artRu
 		ar.Mode = "reader"
 		cr = c.applyReader(src, opts)
 	} else {
+		// parsed trees: the document node, the <html> element, the <body>
+		// element (attached) or a detached clone of <body> as root
+		doc := parseHTML(src)
+		root := doc
 		ar.Mode = "tree"
-		cr = c.apply(parseHTML(src), opts)
+		var htmlEl, bodyEl *html.Node
+		walk(doc, func(n *html.Node) bool {
+			if n.Type == html.ElementNode && n.Data == "html" && htmlEl == nil {
+				htmlEl = n
+			}
+			if n.Type == html.ElementNode && n.Data == "body" && bodyEl == nil {
+				bodyEl = n
+			}
+			return bodyEl == nil
+		})
+		switch idx / 2 % 4 {
+		case 1:
+			if htmlEl != nil {
+				root, ar.Mode = htmlEl, "tree:html-element"
+			}
+		case 2:
+			if bodyEl != nil {
+				root, ar.Mode = bodyEl, "tree:body-element"
+			}
+		case 3:
+			if bodyEl != nil {
+				root, ar.Mode = detached(bodyEl), "tree:detached-body"
+			}
+		}
+		cr = c.apply(root, opts)
 	}
 	if !c.usable(cr) {
 		return ar, false
